@@ -455,7 +455,7 @@ def judge_fake(ctx, w, exps, lm, label):
         elif any_glued and (pv['verdict'] is True or glued_skip_lost(
                 pv, exps, ran, want_f, want_e, skipped) or (
                     mech == 'channel-totals-differ' and
-                    pv['total'][1:3] == (len(want_f), len(want_e)))):
+                    tuple(pv['total'][1:3]) == (len(want_f), len(want_e)))):
             # the first line of the report is glued to the partial line and
             # no longer parses: either the header ('Could not communicate'
             # for a complete run) or the 'skipped N' line in front of it
